@@ -1586,3 +1586,156 @@ func c11chunkDimWidth(c *Ctx, r *Result, rule string) {
 	}
 	r.Floor(rule, 3)
 }
+
+// byteLoadDerived: v is (a conversion of) a single byte read from a slice/array/string element (incl. range values).
+func byteLoadDerived(v ssa.Value) bool {
+	v = stripConv(v)
+	switch x := v.(type) {
+	case *ssa.UnOp:
+		if x.Op == token.MUL {
+			if ia, ok := x.X.(*ssa.IndexAddr); ok {
+				if b, isB := x.Type().Underlying().(*types.Basic); isB && b.Kind() == types.Uint8 {
+					_ = ia
+					return true
+				}
+			}
+		}
+	case *ssa.Index:
+		if b, isB := x.Type().Underlying().(*types.Basic); isB && b.Kind() == types.Uint8 {
+			return true
+		}
+	case *ssa.Extract:
+		// range over string / slice via Next is rare for bytes
+	}
+	return false
+}
+
+func init() {
+	reg := registry["C11"]
+	reg.Meta.Rules["C11.7"] = "integers assembled from or split into single bytes move whole bytes: where a byte is shifted by a variable amount (value |= uint(b) << s, or byte(value >> s)), s is a multiple of 8 in every term (8*i, never i)"
+	reg.Meta.Rules["C11.8"] = "an encoder returns bytes nobody else holds: the slice returned by every Encode*/encode* function of core is made in that call (also through helpers) - never backed by a package variable or a field (the bytes of an earlier message would change when the next one is encoded)"
+	reg.Rules = append(reg.Rules, func(c *Ctx, r *Result) {
+		// ---- C11.7
+		n := 0
+		for _, fn := range c.LibFuncs() {
+			pk := shortPkg(fnPkgPath(fn))
+			if pk != "core" && pk != "structures" && pk != "hdf5" && pk != "writer" && pk != "utils" {
+				continue
+			}
+			fb := c.FB(fn)
+			instrs(fn, func(in ssa.Instruction) {
+				bo, ok := in.(*ssa.BinOp)
+				if !ok || (bo.Op != token.SHL && bo.Op != token.SHR) {
+					return
+				}
+				if _, isK := constInt(bo.Y); isK {
+					return
+				}
+				role := ""
+				if bo.Op == token.SHL && byteLoadDerived(bo.X) {
+					role = "assemble"
+				}
+				if bo.Op == token.SHR {
+					// byte(value >> s): the result is converted to a byte
+					if bo.Referrers() != nil {
+						for _, ref := range *bo.Referrers() {
+							if cv, ok := ref.(*ssa.Convert); ok {
+								if b, isB := cv.Type().Underlying().(*types.Basic); isB && b.Kind() == types.Uint8 {
+									role = "split"
+								}
+							}
+						}
+					}
+				}
+				if role == "" {
+					return
+				}
+				n++
+				l := fb.lin(stripConv(bo.Y))
+				ok8 := l.C%8 == 0
+				for _, coef := range l.T {
+					if coef%8 != 0 {
+						ok8 = false
+					}
+				}
+				r.Check(ok8, "C11.7", c.Name(fn)+"#byte-"+role+"-shift-is-whole-bytes", c.InstrPos(bo), "shift amount "+fb.linString(l)+" is a multiple of 8")
+			})
+		}
+		if n < 2 {
+			r.Errorf("C11.7: only %d variable byte shifts found", n)
+		}
+		// ---- C11.8
+		m := 0
+		for _, fn := range c.LibFuncs() {
+			if shortPkg(fnPkgPath(fn)) != "core" || !(strings.HasPrefix(fn.Name(), "Encode") || strings.HasPrefix(fn.Name(), "encode")) {
+				continue
+			}
+			if fn.Signature.Results().Len() < 1 || !isByteSlice(fn.Signature.Results().At(0).Type()) || fn.Blocks == nil {
+				continue
+			}
+			for _, ret := range successReturns(fn) {
+				m++
+				bad, what := c.sharedBacking(retOperand(ret, 0), 0)
+				r.Check(!bad, "C11.8", c.Name(fn)+"#result-not-shared-state", c.InstrPos(ret), "the returned message is made in this call (shared backing found: "+what+")")
+			}
+		}
+		if m < 10 {
+			r.Errorf("C11.8: only %d encoder returns found", m)
+		}
+	})
+}
+
+// sharedBacking: the slice value is backed by a package variable or a struct field (followed through slicing, phis, append
+// and the returns of static callees).
+func (c *Ctx) sharedBacking(v ssa.Value, d int) (bool, string) {
+	if d > 8 {
+		return false, ""
+	}
+	switch x := v.(type) {
+	case *ssa.Slice:
+		return c.sharedBacking(x.X, d+1)
+	case *ssa.Convert:
+		return c.sharedBacking(x.X, d+1)
+	case *ssa.ChangeType:
+		return c.sharedBacking(x.X, d+1)
+	case *ssa.Phi:
+		for _, e := range x.Edges {
+			if b, w := c.sharedBacking(e, d+1); b {
+				return b, w
+			}
+		}
+	case *ssa.UnOp:
+		if x.Op == token.MUL {
+			if f, _ := fieldOfAddr(x.X); f != nil {
+				return true, "field " + f.Name()
+			}
+			if g, ok := x.X.(*ssa.Global); ok {
+				return true, "package variable " + g.Name()
+			}
+		}
+	case *ssa.Global:
+		return true, "package variable " + x.Name()
+	case *ssa.Extract:
+		return c.sharedBacking(x.Tuple, d+1)
+	case *ssa.Call:
+		if b, ok := x.Call.Value.(*ssa.Builtin); ok {
+			if b.Name() == "append" {
+				return c.sharedBacking(x.Call.Args[0], d+1)
+			}
+			return false, ""
+		}
+		f := x.Call.StaticCallee()
+		if f == nil || f.Blocks == nil || !inModule(fnPkgPath(f)) {
+			return false, ""
+		}
+		for _, ret := range returnsOf(f) {
+			if len(ret.Results) == 0 {
+				continue
+			}
+			if b, w := c.sharedBacking(ret.Results[0], d+1); b {
+				return b, w + " (via " + c.Name(f) + ")"
+			}
+		}
+	}
+	return false, ""
+}
